@@ -4,7 +4,7 @@
 set -e
 DEST=$1
 mkdir -p "$DEST"
-cd /repo
+cd "${VERIF_REPO:-/repo}"
 tar cf - --exclude='*.so' --exclude='__pycache__' --exclude='_crecords/*.c' setup.py pyproject.toml README.rst aiokafka 2>/dev/null | tar xf - -C "$DEST"
 cp aiokafka/record/_crecords/crc32c.c aiokafka/record/_crecords/crc32c.h "$DEST/aiokafka/record/_crecords/" 2>/dev/null || true
 cd "$DEST"
